@@ -8,6 +8,7 @@ import (
 	"path/filepath"
 	"strings"
 
+	"github.com/aml-org/amf-custom-validator/internal/validator"
 	v "github.com/aml-org/amf-custom-validator/internal/zzverif"
 )
 
@@ -191,10 +192,32 @@ func VerifC18ValidateNative() {
 		os.WriteFile(data, []byte("{\"@context\": 42}"), 0o644)
 	}
 	toFile := v.ReplayInt("toFile") == 1
+	if !toFile && !v.ReplayBool("libErr") {
+		// stdout must be exactly what the library returns: put the solver's report bytes (their printable
+		// part) into the report through the validation message and compare with the in-process library call
+		var msg []byte
+		for _, b := range v.ReplayBytes("report") {
+			if b >= 0x20 && b < 0x7f && b != '"' && b != '\\' && b != '{' && b != '}' {
+				msg = append(msg, b)
+			}
+		}
+		prof := "#%Validation Profile 1.0\nprofile: T\nviolation:\n  - v1\nvalidations:\n  v1:\n    message: \"x" + string(msg) + "x\"\n    targetClass: apiContract.EndPoint\n    propertyConstraints:\n      core.description:\n        minCount: 1\n"
+		doc := `{"@id": "http://x/a", "@type": "http://a.ml/vocabularies/apiContract#EndPoint"}`
+		pf, df := filepath.Join(dir, "p.yaml"), filepath.Join(dir, "d.jsonld")
+		os.WriteFile(pf, []byte(prof), 0o644)
+		os.WriteFile(df, []byte(doc), 0o644)
+		lib, lerr := validator.Validate(prof, doc, false, nil)
+		if lerr != nil {
+			panic(lerr)
+		}
+		so, _, code := v.RunCmd(dir, acv, "validate", pf, df)
+		v.Assert("C18.stdout-exact", dropDate(so) == dropDate(lib+"\n"))
+		v.Assert("C18.exit-zero", code == 0)
+		return
+	}
 	// the library's report for these inputs, as the library itself prints it
 	want, _, wantCode := v.RunCmd(dir, acv, "validate", profile, data)
 	if !toFile {
-		v.Assert("C18.exit-zero", wantCode == 0 || v.ReplayBool("libErr"))
 		if v.ReplayBool("libErr") {
 			v.Assert("C18.exit-nonzero-on-failure", wantCode != 0)
 			v.Assert("C18.no-stdout-on-failure", want == "")
